@@ -632,7 +632,7 @@ func (Driver) Run(c *core.Ctx) {
 		case 1, 2:
 			abs, _ = gen.Weaken(r, conc, gen.WeakenOpts{Refined: true, TypedOnly: true, ForceTop: true})
 		default:
-			abs, _ = gen.Weaken(r, conc, gen.WeakenOpts{Pct: 10 + r.Intn(30), Refined: r.Chance(3, 4), TypedOnly: true, ForceOne: true})
+			abs, _ = gen.Weaken(r, conc, gen.WeakenOpts{Pct: 10 + r.Intn(30), Refined: r.Chance(3, 4), TypedOnly: true, ForceOne: true, InflateSets: true})
 		}
 		cu, _ := conc.Unmark()
 		Tn, label := deriveTarget(r, m.TNodeOf(cu.Type()))
